@@ -350,7 +350,9 @@ def main():
                 return [('violation', 'case-timeout', 'the case did not finish within %d s' % limit_)]
             except Exception as e_:
                 tb_ = traceback.extract_tb(e_.__traceback__)
-                if tb_ and os.sep + 'pyerrors' + os.sep in tb_[-1].filename and os.sep + 'driver' + os.sep not in tb_[-1].filename:
+                drv_ = [i_ for i_, f_ in enumerate(tb_) if os.sep + 'driver' + os.sep in f_.filename]
+                below_ = tb_[(drv_[-1] + 1) if drv_ else 0:]      # frames entered from the last harness frame
+                if below_ and os.sep + 'pyerrors' + os.sep in below_[0].filename:
                     where_ = [f_ for f_ in tb_ if os.sep + 'driver' + os.sep in f_.filename]
                     return [('violation', 'library-exception', '%s: %s (raised at %s:%d, called from %s:%d)' % (
                         type(e_).__name__, str(e_)[:160], os.path.basename(tb_[-1].filename), tb_[-1].lineno,
